@@ -1,15 +1,100 @@
-"""C15 - see p_cachefam.py (cache family) and DESIGN.md section 5/C15."""
+"""C15 - per-target metadata counters and latency statistics are truthful.
+
+Stage 1: cache family (p_cachefam.py, CacheTrace.tla): counters, leaf count, latest timestamp, lifecycle
+metadata and the UpdateMetadata/UpdateSize exports after every call.
+Stage 2: latency clause.  Latency.tla (batch, slots, slide, export - shaped like latency.Latency) is
+model-checked for Bounded (every exported statistic lies between the extremes of the samples observed in the
+window, the average up to the precision) and Window (the samples accounted to a window are all those inside it
+and none from before the update preceding its left edge), with three mutants that must violate them; the real
+latency.Latency is then driven with a stubbed clock and every export validated by LatencyTrace.tla, which states
+Bounded over the recorded samples only (it does not replay the implementation's slots).
+Stage 3: concurrent-refresh clause (conc_stage).
+"""
+import json
+import os
+import time
+
 import p_cachefam as fam
+import p_simple
+import racelib
+import vlib
 
 PID = "C15"
 RULE = "seeded random call sequences (profile 'meta': updates/deletes interleaved with Sync/Connect/ConnectError/Reset/UpdateMetadata/UpdateSize and empty notifications); after every call the metadata counters of every target (leaves, added, deleted, updated, suppressed, stale, future, empty, sync, connected, connectError) are read through Cache.Metadata() and the exported meta/... leaves are read through Query, and TLC validates them against the counters of Cache.tla. distinct_nontrivial = distinct (call, result, feed, content) lines with non-empty content"
+LAT_RULE = ("latency clause: %d scenarios on the real latency.Latency with a stubbed clock: 1-3 windows (1-8 update periods), averaging precision 1/10/1000 ns, "
+            "10-50 calls mixing Compute (latencies around a scenario base, with zero, negative (device clock ahead) and outlier values, at clock advances of "
+            "0, 1 ns, 1/4 and 1/2 period) and UpdateReset/UpdateLast at regular or irregular advances (0 .. 5 periods); TLC validates every exported "
+            "avg/max/min against the extremes of the samples recorded since the update that precedes the window's left edge (LatencyTrace.tla)")
 
 
 def run(tier):
     n, length = (480, 60) if tier == "quick" else (12000, 80)
     cfg = "CacheMC_C15.cfg" if tier == "quick" else "CacheMC_C15_thorough.cfg"
-    return fam.run_family(PID, tier, 'meta', n, length, cfg, RULE, shards=16 if tier == "quick" else 48)
+    rc1 = fam.run_family(PID, tier, 'meta', n, length, cfg, RULE, shards=16 if tier == "quick" else 48)
+    ln = 1500 if tier == "quick" else 60000
+    models = [("LatencyMC.tla", "Latency.cfg" if tier == "quick" else "Latency_thorough.cfg", False), ("LatencyMC.tla", "Latency_prec.cfg" if tier == "quick" else "Latency_prec_thorough.cfg", False),
+              ("LatencyMC.tla", "Latency_no_reset.cfg", True), ("LatencyMC.tla", "Latency_late_slide.cfg", True),
+              ("LatencyMC.tla", "Latency_unscaled_avg.cfg", True)]
+    rc2 = p_simple.run(PID, tier, models, [["latency", "run", "-n", str(ln), "-shards", "16" if tier == "quick" else "48"]],
+                       "LatencyTrace.tla", LAT_RULE % ln,
+                       ["latency clause: 'observed in that window' is taken at the granularity of the update calls (a slot that straddles the window's "
+                        "left edge counts as inside, as the implementation's slots do); the initial-coverage rule only delays exports and is not checked",
+                        "values stay below 2^31 (TLC integers): period 1000 ns, latencies up to ~10^5 ns",
+                        ],
+                       boundary=("cfg",), count_keys=("scenarios",), sig=lambda r: "latency %s" % r.event.get("ev"),
+                       trivial=lambda l: b'"ev":"cfg"' in l, merge=True, stage="-lat")
+    rc3 = conc_stage(tier)
+    return max(rc1, rc2, rc3)
+
+
+def conc_stage(tier):
+    """Concurrent-refresh clause: one update stream per target concurrently with UpdateMetadata/UpdateSize/readers, run with the
+    race-detector build (its reports are observations of these executions); the counters read back at rest are validated by TLC."""
+    t0 = time.time()
+    work = vlib.workdir(PID + "-conc")
+    drv_race = vlib.build_driver(race=True)
+    outcome = vlib.Outcome(PID, tier)
+    n = 400 if tier == "quick" else 20000
+    rlog = os.path.join(work, "race")
+    tr = os.path.join(work, "traces")
+    try:
+        d = vlib.drv_stats(vlib.run_driver(drv_race, ["cache", "conc", "-n", str(n), "-out", tr, "-shards", "8"],
+                                           env={"GORACE": "log_path=%s halt_on_error=0 exitcode=0" % rlog}, timeout=6000, crash_ok=True))
+    except vlib.DriverCrash as ex:
+        # e.g. the runtime's "fatal error: concurrent map read and map write" inside the code under test
+        s = vlib.repo_panic(ex.stderr, "cache") or vlib.repo_panic(ex.stderr, "metadata") or vlib.repo_panic(ex.stderr, "latency")
+        if not s:
+            raise vlib.Infra("concurrent cache driver crashed outside the code under test:\n" + ex.stderr[-3000:])
+        outcome.report("crash: " + s, dict(family="cacheconc", panic=ex.stderr[-6000:]))
+        d = {}
+    races = racelib.parse_reports(rlog)
+    for sig, cnt in sorted(races.items()):
+        outcome.report(sig, dict(family="race", signature=sig, count=cnt, note="Go race detector report while running 'verifdrv-race cache conc'"))
+    files = sorted(os.path.join(tr, f) for f in os.listdir(tr) if f.endswith(".ndjson")) if os.path.isdir(tr) else []
+    stats, rejs = vlib.validate_traces("CacheConcTrace.tla", "CacheConcTrace.cfg", files, os.path.join(work, "val"), lambda e: True)
+    for r in rejs:
+        outcome.report("cache conc final counters", dict(family="cacheconc", rejected_event=r.event, reason=r.reason, spec="CacheConcTrace.tla"))
+    vlib.log("[race] %d concurrent scenarios under the race detector, %d distinct report signature(s); %d final states validated, %d rejected" % (
+        d.get("scenarios", 0), len(races), stats["events"], len(rejs)))
+    rc = outcome.finish()
+    vlib.write_evidence(PID, tier, "model_checking", dict(
+        states=1, transitions=1, traces_validated_against_impl=d.get("scenarios", 0), samples=vlib.sample_lines(files, 1),
+        evaluations=stats["events"], distinct_nontrivial=stats["events"],
+        rule="concurrent-refresh clause: %d scenarios with one update stream per target (60 calls each: updates, deletes, Sync/Connect/ConnectError/Reset) "
+             "concurrently with goroutines looping over UpdateMetadata, UpdateSize and Query/Metadata reads, latency windows on in half of them, "
+             "executed by the race-detector build; afterwards leaf count = non-metadata leaves stored = added - deleted per target (CacheConcTrace.tla)" % n,
+        exhaustive=False, race_signatures=sorted(races), rejected=len(rejs), known_findings_hit=outcome.known, model_drift=0,
+        checker_cmd="verifdrv-race cache conc; tlc CacheConcTrace.tla per shard"),
+        ["the Go race detector reports only races that occur in the executions it monitors",
+         "caches are created one at a time (creating a cache registers metadata names in package-level maps: start-up work)"],
+        time.time() - t0, len(outcome.violations), merge=True)
+    vlib.cleanup(PID + "-conc")
+    return rc
 
 
 def replay(path):
+    with open(path) as f:
+        rp = json.load(f)
+    if rp.get("family") == "latency":
+        return p_simple.replay_events(PID, path, "LatencyTrace.tla", boundary=("cfg",))
     return fam.replay_family(PID, path)
